@@ -24,6 +24,7 @@ package keeper
 
 //@ func (k Keeper).WeightedMedian(ctx, reports, metaId) (agg, err)
 //@ requires [non_empty] len(reports) > 0
+//@ requires [called_for_rounds_of_median_queries] reports[0].AggregateMethod == "weighted-median"
 //@ requires [values_are_hex] forall j in [0, len(reports)) :: ishex(strip0x(reports[j].Value))
 //@ requires [one_report_per_reporter] forall a in [0, len(reports)) :: forall b in [0, len(reports)) :: a != b ==> reports[a].Reporter != reports[b].Reporter
 //@ requires [each_power_at_least_one_token_and_below_2_63] forall j in [0, len(reports)) :: 1 <= reports[j].Power && reports[j].Power < 9223372036854775808
@@ -53,6 +54,7 @@ package keeper
 
 //@ func (k Keeper).WeightedMode(ctx, reports, metaId) (agg, err)
 //@ requires [non_empty] len(reports) > 0
+//@ requires [called_for_rounds_of_all_other_queries] reports[0].AggregateMethod != "weighted-median"
 //@ requires [each_power_at_least_one_token] forall j in [0, len(reports)) :: 1 <= reports[j].Power
 //@ requires [every_prefix_total_below_2_63] forall m in [0, len(reports) + 1) :: tot(reports, m) < 9223372036854775808
 //@ ensures [no_error] err == nil && agg != nil
@@ -345,11 +347,9 @@ package keeper
 //@ modifies oracle.Query, oracle.Aggregates, oracle.Nonces, bank.bal, reporter.SelectorTips, H_*, A_*
 //@ ensures [closed_rounds_with_reports_disappear] err == nil ==> forall q bytes :: forall i int :: old(has(oracle.Query, pair(q, i))) && old(closed(q, i)) ==> !has(oracle.Query, pair(q, i))
 //@ ensures [other_rounds_are_untouched] forall q bytes :: forall i int :: !(old(has(oracle.Query, pair(q, i))) && old(closed(q, i))) ==> (has(oracle.Query, pair(q, i)) <==> old(has(oracle.Query, pair(q, i)))) && round(q, i) == old(round(q, i))
-//@ ensures [mode_is_used_for_all_other_rounds] called(WeightedMode) ==> len(arg(WeightedMode, reports)) > 0 && arg(WeightedMode, reports)[0].AggregateMethod != "weighted-median"
 //@ loop 0 "for ; idsIterator.Valid(); idsIterator.Next()"
 //@ loop 0 invariant [rounds_still_to_visit_are_as_on_entry] forall j in [itpos(idsIterator), itlen(idsIterator)) :: has(oracle.Query, itkey(idsIterator, j)) && oracle.Query[itkey(idsIterator, j)] == old(oracle.Query[itkey(idsIterator, j)])
 //@ loop 0 invariant [visited_closed_rounds_are_gone] forall j in [0, itpos(idsIterator)) :: old(oracle.Query[itkey(idsIterator, j)]).Expiration <= blockheight(ctx) ==> !has(oracle.Query, itkey(idsIterator, j))
 //@ loop 0 invariant [only_visited_closed_rounds_changed] forall q bytes :: forall i int :: !(old(has(oracle.Query, pair(q, i))) && old(closed(q, i))) ==> (has(oracle.Query, pair(q, i)) <==> old(has(oracle.Query, pair(q, i)))) && round(q, i) == old(round(q, i))
 //@ loop 0 invariant [reports_untouched] oracle.Reports == old(oracle.Reports)
-//@ loop 0 invariant [mode_is_used_for_all_other_rounds] called(WeightedMode) ==> len(arg(WeightedMode, reports)) > 0 && arg(WeightedMode, reports)[0].AggregateMethod != "weighted-median"
 //@ loop 0 invariant [payees_present] forall j in [0, len(reportersToPay)) :: allocated(reportersToPay[j]) && allocated(reportersToPay[j].Reporters)
